@@ -107,6 +107,26 @@ V('c10-propertylist-case-set', 'C10', 'C10.R8',
     "            property_dict = NocaseDict()\n", "            property_dict = {}\n")],
   'case')
 
+V('c01-children-sorted', 'C01', 'C01.R8',
+  ('pywbem/_tupleparse.py',
+   "        for child in kids(tup_tree):\n            if name(child) not in acceptable:\n                raise CIMXMLParseError(\n                    _format(\"Element {0!A} has invalid child element {1!A} \"\n                            \"(allowed are child elements {2!A})\",",
+   "        for child in sorted(kids(tup_tree)):\n            if name(child) not in acceptable:\n                raise CIMXMLParseError(\n                    _format(\"Element {0!A} has invalid child element {1!A} \"\n                            \"(allowed are child elements {2!A})\","),
+  'reorder')
+V('c01-children-grouped', 'C01', 'C01.R8',
+  ('pywbem/_tupleparse.py',
+   "        for child in kids(tup_tree):\n            if name(child) not in matched:\n                continue\n            result.append(self.parse_any(child))\n",
+   "        for m_ in matched:\n            for child in kids(tup_tree):\n                if name(child) == m_:\n                    result.append(self.parse_any(child))\n"),
+  'nested-loop')
+V('c01-value-stripped', 'C01', 'C01.R9',
+  ('pywbem/_tupleparse.py', "        self.check_node(tup_tree, 'VALUE', (), (), (), allow_pcdata=True)\n\n        return pcdata(tup_tree)\n",
+   "        self.check_node(tup_tree, 'VALUE', (), (), (), allow_pcdata=True)\n\n        return pcdata(tup_tree).strip()\n"), 'text-changed')
+V('c01-string-branch-strip', 'C01', 'C01.R9',
+  ('pywbem/_tupleparse.py', "        if cimtype == 'string':\n            return data\n",
+   "        if cimtype == 'string':\n            return data.strip()\n"), 'text-changed')
+V('c01-writer-str-normalised', 'C01', 'C01.R9',
+  ('pywbem/_cim_types.py', "    elif isinstance(obj, str):\n        return obj\n",
+   "    elif isinstance(obj, str):\n        return obj.replace('\\r\\n', '\\n')\n"), 'text-changed')
+
 # ---- C04 ------------------------------------------------------------------
 OPSF = 'pywbem/_cim_operations.py'
 MOCKF = 'pywbem_mock/_wbemconnection_mock.py'
